@@ -152,6 +152,15 @@ def check(case):
                     kind = "frozen" if (n == "q" or n in exp_par) else "recomputed"
                     return outcome(False, "wrong-value", symptom=f"wrong-value:{kind}", nontrivial=nt,
                                    detail=f"{n} at {state}, t={t}: {got[n]} expected {val} | {txt}")
+            # the time-course form with the frame's columns in reverse order: columns are names, not positions
+            import pandas as pd
+
+            frame = pd.DataFrame({v: [state[v]] for v in reversed(var_names)}, index=[t])
+            atc = m.get_args_time_course(frame)
+            for n, val in exp.items():
+                if n in atc.columns and not _close(float(atc.loc[t, n]), val):
+                    return outcome(False, "wrong-value", symptom="wrong-value:time-course-form", nontrivial=nt,
+                                   detail=f"get_args_time_course with columns {list(frame.columns)}: {n} at t={t} is {atc.loc[t, n]} expected {val} | {txt}")
             # reading the coefficient table at this state must not freeze anything for the next one
             m.get_stoichiometries(state, t)
             m.get_stoichiometries_of_variable(var_names[-1], state, t)
